@@ -35,6 +35,7 @@ class HashModel:
         self.sym_terms = []  # (alg, args, val)
         self.conc_terms = []
         self.cache = {}
+        self.content_ids = {}
         self.bytes_ids = {}
         self.count = 0
         self.concrete_ids = True
@@ -92,6 +93,24 @@ class HashModel:
                 e.add(v2 != val)
         self.cache[key] = (args, val, len(self.cache))  # keep args alive: ast ids are only unique among live terms
         return Dig(alg, val, self.cache[key][2])
+
+
+def _el_key(el):
+    def txt(v):
+        if v is None or v == "":
+            return None
+        if isinstance(v, Dig):
+            return ("D", v.alg, v.val.get_id() if not z3.is_int_value(v.val) else v.val.as_long())
+        if isinstance(v, pse.DecStr):
+            return ("N", z3.simplify(v.sym.z).get_id())
+        if isinstance(v, str) and tokens.has_key(v):
+            t = tokens.tokens_in(v)
+            if len(t) == 1 and hasattr(t[0], "t"):
+                zz = lambda x: x if not isinstance(x, SymInt) else ("z", z3.simplify(x.z).get_id())
+                return ("T", zz(t[0].t), zz(t[0].micro), zz(t[0].off), t[0].fmt)
+            return ("K", tokens.plain(v))
+        return v
+    return (el.tag, txt(el.text), tuple(sorted((k, txt(v)) for k, v in el.attrib.items())), tuple(_el_key(c) for c in el.children))
 
 
 class Chunk:
@@ -277,11 +296,11 @@ class WriteFile:
                 part = bytes(b)[:len(b) // 2]
                 self.node.content.append(part)
                 self.node.size = self.node.size + len(part)
-                self.node.cid = w.fresh_cid()
+                self.node.cid = w.content_cid(self.node)
             raise Crash(("write", self.path))
         self.node.content.append(bytes(b))
         self.node.size = self.node.size + len(b)
-        self.node.cid = w.fresh_cid()
+        self.node.cid = w.content_cid(self.node)
         w.op("write", self.path, len(b))
         return len(b)
 
@@ -343,6 +362,21 @@ class World:
         self._cid += 1
         return self._cid
 
+    def content_cid(self, node):
+        """written files: the content id is a function of the content (literal pieces + structure of the element trees), so that
+        byte-identical files written in different worlds / orders have the same id and a partially written file a different one"""
+        key = []
+        for piece in b"".join(node.content).decode("utf-8", "replace").split("\x00"):
+            if piece.startswith("XML") and piece[3:].isdigit():
+                key.append(_el_key(tokens.lookup("\x00%s\x00" % piece).el))
+            else:
+                key.append(piece)
+        key = tuple(key)
+        ids = self.hm.content_ids
+        if key not in ids:
+            ids[key] = 2000000 + len(ids)
+        return ids[key]
+
     def op(self, *a):
         if self.crash_at is not None and len(self.ops) == self.crash_at and a[0] != "write":
             raise Crash(a)  # killed before this operation takes effect
@@ -355,8 +389,9 @@ class World:
         return n
 
     def add_text_file(self, path, text, mtime=1577836800):
-        n = self.add_file(path, self.fresh_cid(), len(text.encode()), mtime)
+        n = self.add_file(path, 0, len(text.encode()), mtime)
         n.content = [text.encode()]
+        n.cid = self.content_cid(n)
         return n
 
     def mkdirs(self, p, mtime=1577836800):
@@ -574,7 +609,7 @@ class World:
                 self.op("open_a", p)
                 return WriteFile(self, p, n, text)
             self.op("open_w", p)
-            n = Node("file", self.fresh_cid(), 0, self.now)
+            n = Node("file", 0, 0, self.now)
             n.content = []
             self.nodes[p] = n
             return WriteFile(self, p, n, text)
